@@ -23,7 +23,7 @@ Theorem file_waveform_lemma : forall st i k, inv st -> avail st W = true -> 0 <=
 Proof.
   intros st i k I Ha Hi Hk. unfold file_waveform, file_waveforms, read_event.
   rewrite Ha. rewrite (inv_avail_col st W I Ha). cbn [negb].
-  destruct (i <? 0) eqn:E1; [lia|]. destruct (n_events st <=? i) eqn:E2; [lia|]. cbn [orb].
+  destruct (i <? 0) eqn:E1; [lia|]. cbv zeta. rewrite E1. destruct (n_events st <=? i) eqn:E2; [lia|]. cbn [orb].
   split; [| reflexivity].
   rewrite cell_col by lia.
   assert (Hl : (Z.to_nat i < length (colOf (idx st) W))%nat).
